@@ -86,17 +86,20 @@ def focus_violations(res, prop):
 def _worker(task):
     prop, tier, batch_seed, k0, k1 = task
     from .run1 import execute
-    faulthandler.dump_traceback_later(1500, exit=True)
+    faulthandler.dump_traceback_later(600, exit=True)
     agg = {'sessions': 0, 'ops': 0, 'judged': Counter(), 'skips': Counter(), 'probes': Counter(), 'fired': Counter(),
            'seam_calls': Counter(), 'outcomes': Counter(), 'sigs': set(), 'nontrivial_sigs': set(), 'digests': {}, 'viol': [], 'collateral': [],
-           'faultfree': 0, 'harness_errors': [], 'by_world': Counter(), 'trigrams': set(), 'samples': [], 't': 0.0}
+           'faultfree': 0, 'harness_errors': [], 'hangs': [], 'by_world': Counter(), 'trigrams': set(), 'samples': [], 't': 0.0}
     t0 = time.time()
     for k in range(k0, k1):
         s = make(prop, tier, batch_seed, k)
         try:
             r = execute(s)
-        except Exception:
-            agg['harness_errors'].append({'k': k, 'seed': s['seed'], 'trace': traceback.format_exc()[-1500:]})
+        except Exception as e:
+            if type(e).__name__ == 'SessionHang':
+                agg['hangs'].append({'k': k, 'seed': s['seed'], 'what': str(e)})
+            else:
+                agg['harness_errors'].append({'k': k, 'seed': s['seed'], 'trace': traceback.format_exc()[-1500:]})
             continue
         agg['sessions'] += 1
         agg['by_world'][s['world']] += 1
@@ -319,7 +322,7 @@ def run_check(prop, tier='quick', batch_seed=0, budget_s=None, sessions=None, wo
         chunk = max(2, chunk // 2)
     agg = {'sessions': 0, 'ops': 0, 'judged': Counter(), 'skips': Counter(), 'probes': Counter(), 'fired': Counter(),
            'seam_calls': Counter(), 'outcomes': Counter(), 'sigs': set(), 'nontrivial_sigs': set(), 'digests': {}, 'viol': [], 'collateral': [],
-           'faultfree': 0, 'harness_errors': [], 'by_world': Counter(), 'trigrams': set(), 'samples': [], 'cpu_s': 0.0}
+           'faultfree': 0, 'harness_errors': [], 'hangs': [], 'by_world': Counter(), 'trigrams': set(), 'samples': [], 'cpu_s': 0.0}
     ctx = multiprocessing.get_context('fork')
     nxt = 0
     inconclusive = None
@@ -363,6 +366,7 @@ def run_check(prop, tier='quick', batch_seed=0, budget_s=None, sessions=None, wo
                 agg['collateral'] += a['collateral']
                 agg['faultfree'] += a['faultfree']
                 agg['harness_errors'] += a['harness_errors']
+                agg['hangs'] += a.get('hangs', [])
                 if len(agg['samples']) < 3:
                     agg['samples'] += a['samples']
             if len(agg['viol']) >= 40:
@@ -372,6 +376,8 @@ def run_check(prop, tier='quick', batch_seed=0, budget_s=None, sessions=None, wo
                 break
             submit()
     wall_explore = time.time() - t0
+    if agg['hangs'] and not inconclusive:
+        inconclusive = f'{len(agg["hangs"])} session(s) did not terminate (first: session_seed={agg["hangs"][0]["seed"]}, {agg["hangs"][0]["what"]})'
 
     # ---- violations: classify, shrink, report ---------------------------------------------------
     reported = []
@@ -422,6 +428,10 @@ def run_check(prop, tier='quick', batch_seed=0, budget_s=None, sessions=None, wo
         return 2
     if inconclusive:
         print(f'INCONCLUSIVE: {inconclusive}')
+        if reported:
+            # a worker hung or died (e.g. a session that does not terminate), but other sessions did produce replayable
+            # violations: those stand on their own
+            return 1
         return 2
     if det is not None and not det['ok']:
         print(f'HARNESS-ERROR: determinism slice failed: {det}')
@@ -467,7 +477,9 @@ def write_evidence(prop, tier, batch_seed, agg, reported, known_hits, det, wall,
                        'simulated_environment': ['LAPACK gauge choices (QR sign, SVD phase/rotation, eigenvector sign)', 'tie order of unstable sort',
                                                  'last-bit rounding of LAPACK results', 'OS entropy (default_rng)', 'caller memory layout / write protection',
                                                  'backend failure (LinAlgError / MemoryError)', 'user callbacks (Krylov Afunc, automaton callables)',
-                                                 'process-global state set by the caller (numpy error state, print options, warnings filter, global RNG state)'],
+                                                 'process-global state set by the caller (numpy error state, print options, warnings filter, global RNG state)',
+                                                 'interpreter mode (a slice of the sessions runs under python -O)',
+                                                 'representation of arguments (lists / tuples / integer dtypes of charge labels, numpy scalars and 0-d arrays, single / extended precision tensors, mapping and array subclasses)'],
                        'stubs': []},
         'collateral_other_properties': agg['collateral'][:20],
         'known_findings_hit': known_hits,
